@@ -394,7 +394,7 @@ def std_function_at(offset):
 
 class Prog:
     __slots__ = ("src", "ast", "ty", "kind", "typed_regions", "untyped_regions", "own_annots", "hole_annots",
-                 "features", "size", "nodes", "std_used", "seed_note")
+                 "features", "size", "nodes", "std_used", "seed_note", "expect")
 
     def __init__(self):
         self.src = ""
@@ -410,6 +410,7 @@ class Prog:
         self.nodes = []       # (start, end, label) of operations, for violation keys
         self.std_used = []
         self.seed_note = ""
+        self.expect = None    # corpus only: the verdict the author expected
 
     def regions(self):
         return {"typed": self.typed_regions, "untyped": self.untyped_regions, "own_annots": self.own_annots,
@@ -1676,7 +1677,24 @@ def gen_valid(rng, sigs, size):
         e = g.gen(T, [], max(1, budget - 1), True)
         if e is None:
             continue
-        p = make_prog(("annt", e, T), T, "valid", g.features)
+        root = ("annt", e, T)
+        shape = rng.below(8)
+        if shape == 0:
+            # the other way of writing a typed block: an annotated let binding used by untyped code
+            x = g.fresh("v")
+            root = ("let", x, T, e, ("var", x))
+            g.features.add("toplevel:let-annotation")
+        RT = T
+        while RT[0] == "fun" and shape != 0 and not has_tvars(RT[1]):
+            # a typed function is only exercised when called: the (untyped) top level applies it to
+            # an argument that respects the domain
+            arg = g.ugen(RT[1], [], 4, True)
+            if arg is None:
+                break
+            root = ("app", root, arg)
+            RT = RT[2]
+            g.features.add("toplevel:typed-function-applied-by-untyped-code")
+        p = make_prog(root, T, "valid", g.features)
         if p.size <= size and (best is None or p.size > best.size):
             best = p
         if size // 2 <= p.size <= size:
@@ -2134,11 +2152,17 @@ def corpus_prog(src):
 def load_corpus():
     out = []
     for path in sorted(glob.glob(os.path.join(core.ROOT, "corpus", "C01", "*.case"))):
+        expect = None
         for line in open(path):
             line = line.rstrip("\n")
+            m = re.match(r"^#!\s*expect\s+(\S+)", line)
+            if m:               # `#! expect <verdict>` applies to the following lines (informational)
+                expect = None if m.group(1) == "any" else m.group(1)
             if not line.strip() or line.lstrip().startswith("#"):
                 continue
-            out.append(corpus_prog(line))
+            p = corpus_prog(line)
+            p.expect = expect
+            out.append(p)
     return out
 
 
@@ -2246,6 +2270,11 @@ def run_stream(ck, exe, n_valid, n_mutants, max_size, batch=2000, do_shrink=True
             if verdict in ("allowed-error", "untyped-origin", "violation"):
                 ck.hist("c01gen_detail:" + verdict, detail)
             ck.hist("c01gen_size", "%d-%d" % (p.size // 10 * 10, p.size // 10 * 10 + 9))
+            if stream == "corpus" and p.expect is not None:
+                good = verdict == p.expect
+                ck.hist("c01gen_corpus_expectation", "as expected" if good else "differs: expected %s, got %s" % (p.expect, verdict))
+                if not good:
+                    ck.sample("corpus program no longer %s but %s %s: %s => %s" % (p.expect, verdict, detail, p.src[:400], line[:160]), limit=40)
             if stream != "corpus":
                 for f in p.features:
                     ck.hist("c01gen_constructs:" + stream, f)
